@@ -809,6 +809,38 @@ pub fn run_buildw(args: &[&str]) -> String {
                 Err(e) => err_line(&e),
             }
         }
+        "Q" => {
+            // a growable seekable writer whose write() legally accepts only part of the buffer (1..=5 bytes per call)
+            struct Chunky {
+                inner: Cursor<Vec<u8>>,
+                calls: usize,
+            }
+            impl std::io::Write for Chunky {
+                fn write(&mut self, buf: &[u8]) -> std::io::Result<usize> {
+                    self.calls += 1;
+                    let n = buf.len().min(1 + self.calls % 5);
+                    self.inner.write(&buf[..n])
+                }
+                fn flush(&mut self) -> std::io::Result<()> {
+                    Ok(())
+                }
+            }
+            impl std::io::Seek for Chunky {
+                fn seek(&mut self, pos: std::io::SeekFrom) -> std::io::Result<u64> {
+                    self.inner.seek(pos)
+                }
+            }
+            let mut c = Chunky { inner: Cursor::new(storage.clone()), calls: 0 };
+            c.inner.set_position(start as u64);
+            let r = if compressed { p.write_compressed_to(&mut c) } else { p.write_to(&mut c) };
+            match r {
+                Ok(()) => {
+                    let pos = c.inner.position();
+                    format!("OK {} {:x}", bytes_to_hex(&c.inner.into_inner()), pos)
+                }
+                Err(e) => err_line(&e),
+            }
+        }
         "F" => {
             let mut buf = storage.clone();
             let mut c = Cursor::new(&mut buf[..]);
